@@ -405,11 +405,22 @@ func fillProfiles(db *chsql.DB, series []*pSeries) {
 			tags = append(tags, chsql.Tuple{k, s.Tags[k]})
 		}
 		tags = append(tags, chsql.Tuple{"service_name", s.Service})
-		ps.Rows = append(ps.Rows, []chsql.Value{chsql.Date(baseDay), typeID, stu, s.Service, s.FP, tags})
-		for _, kv := range tags {
-			t := kv.(chsql.Tuple)
-			gin.Rows = append(gin.Rows, []chsql.Value{chsql.Date(baseDay), t[0], t[1], typeID, stu, s.Service, s.FP})
-			keys.Rows = append(keys.Rows, []chsql.Value{chsql.Date(baseDay), t[0], t[1], uint64(len(t[1].(string)))})
+		// the index tables are ReplacingMergeTrees fed by every push: until the parts are merged a series that pushed
+		// twice owns every index row twice, and a series that pushed on the day before as well owns a row per day
+		days := []int32{int32(baseDay)}
+		switch s.FP % 3 {
+		case 0:
+			days = append(days, int32(baseDay))
+		case 1:
+			days = append(days, int32(baseDay)-1)
+		}
+		for _, d := range days {
+			ps.Rows = append(ps.Rows, []chsql.Value{chsql.Date(d), typeID, stu, s.Service, s.FP, tags})
+			for _, kv := range tags {
+				t := kv.(chsql.Tuple)
+				gin.Rows = append(gin.Rows, []chsql.Value{chsql.Date(d), t[0], t[1], typeID, stu, s.Service, s.FP})
+				keys.Rows = append(keys.Rows, []chsql.Value{chsql.Date(d), t[0], t[1], uint64(len(t[1].(string)))})
+			}
 		}
 		prof.Rows = append(prof.Rows, []chsql.Value{uint64(baseSec+5) * 1000000000, s.FP, typeID, stu, s.Service, uint64(1000000000), "", "",
 			chsql.Array{}, chsql.Array{}, chsql.Array{}})
@@ -446,7 +457,16 @@ func pyroSelected(pc *pyroCase) (fps map[uint64]bool, sqlText string, err error)
 	if err != nil {
 		return nil, "", fmt.Errorf("%w: selector rejected by the parser: %v", errUndecided, err)
 	}
-	q, err := (&proftr.StreamSelectorPlanner{Selectors: script.Selectors}).Process(pyroCtx())
+	// the fingerprint planner as the exported entry points build it for a script (not a planner type picked here)
+	var fpPlanner lshared.SQLRequestPlanner = &proftr.StreamSelectorPlanner{Selectors: script.Selectors}
+	if pl, perr := proftr.PlanLabelNames([]*profparser.Script{script}); perr == nil {
+		if ln, ok := pl.(*proftr.LabelNamesPlanner); ok {
+			if u, ok := ln.Fingerprints.(*proftr.UnionAllPlanner); ok && len(u.Mains) == 1 {
+				fpPlanner = u.Mains[0]
+			}
+		}
+	}
+	q, err := fpPlanner.Process(pyroCtx())
 	if err != nil {
 		return nil, "", fmt.Errorf("transpiler error: %w", err)
 	}
@@ -594,7 +614,7 @@ func genPyroCase(r *rand.Rand, gi int) (pc pyroCase, class string) {
 	used := map[uint64]bool{}
 	seen := map[string]bool{}
 	tagVals := []string{"a", "b", "ab", "prod"}
-	mode := gi % 6
+	mode := gi % 7
 	for i := 0; i < n; i++ {
 		s := &pSeries{FP: randFP(r, used), Name: pick(r, profNames[:3]), PeriodType: pick(r, profPTypes[:2]), PeriodUnit: pick(r, profPUnits[:2]),
 			Service: pick(r, profSvcs), Tags: map[string]string{}}
@@ -730,6 +750,23 @@ func genPyroCase(r *rand.Rand, gi int) (pc pyroCase, class string) {
 			sets = append(sets, s.labelSets()...)
 		}
 		pc.Selectors = plain(9+r.Intn(2), []string{"env", "zone"})
+	case 6:
+		// what dashboards send: two to four equalities on distinct tags (and sometimes the service), values taken
+		// from one stored series so that other series satisfy a part of them
+		class = "all-equal"
+		target := pick(r, pc.Series)
+		keys := append([]string{}, profTagKeys...)
+		r.Shuffle(len(keys), func(i, j int) { keys[i], keys[j] = keys[j], keys[i] })
+		for _, k := range keys[:2+r.Intn(3)] {
+			v, ok := target.Tags[k]
+			if !ok || r.Intn(5) == 0 {
+				v = pick(r, tagVals)
+			}
+			pc.Selectors = append(pc.Selectors, pmatcher{Name: k, Op: "=", Val: v})
+		}
+		if r.Intn(3) == 0 {
+			pc.Selectors = append(pc.Selectors, pmatcher{Name: "service_name", Op: "=", Val: target.Service})
+		}
 	default:
 		class = "mixed"
 		all := []string{"__name__", "__period_type__", "__period_unit__", "__sample_type__", "__sample_unit__", "__profile_type__", "service_name", "env", "zone", "pod", "x9"}
